@@ -18,3 +18,10 @@ lines = [l for l in out.splitlines() if l.startswith(('VIOLATION', 'OK ', 'TOOL-
 print('\n'.join(lines))
 verdict = 'DETECTED' if p.returncode == 1 and 'VIOLATION' in out else ('TOOL-ERROR' if p.returncode == 2 else 'MISSED')
 print('%s %s by %s %s (exit %d)' % (verdict, name, prop, tier, p.returncode))
+import time
+rec = '/verif/seeded/%s/detection.json' % name
+hist = json.load(open(rec)) if os.path.exists(rec) else []
+hist.append({'check': prop, 'tier': tier, 'verdict': verdict, 'exit': p.returncode, 'summary': lines[:3],
+             'repo_head': subprocess.run('git -C /repo rev-parse --short HEAD', shell=True, stdout=subprocess.PIPE).stdout.decode().strip(),
+             'at': time.strftime('%Y-%m-%dT%H:%M:%SZ', time.gmtime())})
+json.dump(hist, open(rec, 'w'), indent=1)
